@@ -51,8 +51,20 @@ def first_run(name):
         shutil.rmtree(tmp, ignore_errors=True)
 
 
-with ThreadPoolExecutor(8) as ex:
-    conf = list(ex.map(confirm, items))
+_st0 = json.load(open(V / "seeded/STATUS.json"))
+items = [it for it in items if it[1] not in _st0]       # already filed: not again
+
+
+def confirm_retry(it):
+    for _ in range(3):
+        r = confirm(it)
+        if r[1] or "worktrees" not in r[2]:     # (git worktree add races with itself)
+            return r
+    return r
+
+
+with ThreadPoolExecutor(4) as ex:
+    conf = list(ex.map(confirm_retry, items))
 good = [n for n, ok, _ in conf if ok]
 for n, ok, msg in conf:
     if not ok:
